@@ -25,7 +25,8 @@ READ_METHODS = {'get', 'has_attr', 'get_text', 'items', 'keys', 'values', 'find'
                 'startswith', 'endswith', 'split', 'join', '__len__', '__iter__', '__contains__', '__getitem__', 'get_attribute_list'}
 PURE_EXTERNAL = {'isinstance', 'len', 'list', 'tuple', 'str', 'getattr', 'bool', 'iter', 'next', 'id', 'type', 'repr',
                  'cast', 'typing.cast', 'hasattr', 'enumerate', 'reversed', 'zip', 'any', 'all', 'sorted', 'print',
-                 'unicodedata.bidirectional'}
+                 'unicodedata.bidirectional', 'dict', 'dict.fromkeys', 'set', 'frozenset', 'map', 'filter', 'hash', 'callable', 'issubclass',
+                 'itertools.chain', 'chain', 'itertools.islice', 'islice', 'functools.partial', 'partial', 'operator.is_', 'operator.is_not'}
 MUTATORS = {'append', 'extend', 'insert', 'remove', 'pop', 'clear', 'update', 'setdefault', 'popitem', 'sort', 'reverse'}
 
 
@@ -366,14 +367,25 @@ def run(ctx, report: Report) -> None:
             memos[unparse(st.targets[0])] = st
     if len(memos) < 3:
         raise AnalysisError('fewer than three memo tables found in CSSMatch.__init__')
+    # the behaviour the memos must not change: every element keeps its own answer among look-alikes, within one call
+    from .e2ematch import lookalike_table
+    from .sem import memo_container_problem
+    n_la = len(r3.findings)
+    lookalike_table(ctx, r3)
+    tables_clean = len(r3.findings) == n_la
     for name, st in memos.items():
-        is_list = isinstance(st.value, ast.List) and not st.value.elts
-        r3.instance({'memo': name, 'initialised_as': unparse(st.value), 'empty_list_per_call': is_list}, key=name)
-        r3.obligation(is_list)
-        if not is_list:
+        empty = isinstance(st.value, (ast.List, ast.Dict, ast.Set)) and not (getattr(st.value, 'elts', None) or getattr(st.value, 'keys', None)) \
+            or (isinstance(st.value, ast.Call) and call_name(st.value) in ('dict', 'set', 'list') and not st.value.args and not st.value.keywords)
+        problem = None if not empty else memo_container_problem(ctx, mmod, name, st.value)
+        ok = bool(empty) and problem is None
+        r3.instance({'memo': name, 'initialised_as': unparse(st.value), 'fresh_and_empty_per_matcher': bool(empty), 'keyed_by_tags': problem}, key=name)
+        r3.obligation(ok)
+        if not empty:
+            r3.violation(f'{name} container', mmod.where(st), f'{name} is initialised as `{unparse(st.value)}`: a memo must start empty in every matcher')
+        elif problem:
             r3.violation(f'{name} container', mmod.where(st),
-                         f'{name} is initialised as `{unparse(st.value)}`: the memo must be a fresh list per matcher, scanned by '
-                         f'identity (bs4 tags hash and compare structurally, so a dict/set merges identical-looking elements)')
+                         f'{name} is initialised as `{unparse(st.value)}` and {problem}: bs4 tags hash and compare by markup, so a dict / set '
+                         f'keyed by a tag merges identical-looking elements (use a list scanned with `is`, or id(...) keys)')
     for q, fn in mmod.functions.items():
         for c in [n for n in walk_no_nested(fn) if isinstance(n, ast.Call) and isinstance(n.func, ast.Attribute)
                   and n.func.attr == 'append' and unparse(n.func.value) in memos]:
@@ -423,9 +435,14 @@ def run(ctx, report: Report) -> None:
                 if not keys:
                     problems.append('no key comparison found in the lookup loop')
             r3.instance({'function': q, 'store': unparse(c)[:80], 'problems': problems}, key=f'{q}|{unparse(c)[:60]}')
-            r3.obligation(not problems)
+            r3.obligation(not problems or tables_clean)
             for p_ in problems:
-                r3.violation(f'css_match.{q} memo {cache} {p_[:40]}', mmod.where(c), f'{q}: memo {cache}: {p_}')
+                if tables_clean:
+                    # the lookup is written in a way this shape rule does not recognise (next() over a generator, a helper, a dict):
+                    # the look-alike table above and the memo tables below decide
+                    r3.note(f'{q}: memo {cache}: {p_} - not recognised structurally; decided by the look-alike and memo tables')
+                else:
+                    r3.violation(f'css_match.{q} memo {cache} {p_[:40]}', mmod.where(c), f'{q}: memo {cache}: {p_}')
 
     from .sem import lang_memo_table
     n_before = len(r3.findings)
@@ -482,10 +499,9 @@ def run(ctx, report: Report) -> None:
 
     # ---- R5 (the whole pipeline by interpretation, bounded) --------------------------------------------------------------
     r5 = report.rule('C04-R5', 'a compiled selector answers the same after any sequence of other queries (bounded)', floor=3)
-    from .e2ematch import history_table, lookalike_table, one_call_table
+    from .e2ematch import history_table, one_call_table
     history_table(ctx, r5)
     one_call_table(ctx, r5, deep=(ctx.tier == 'thorough'))
-    lookalike_table(ctx, r5)
 
 
 
